@@ -134,6 +134,8 @@ struct runner {
   // C10 running expectations
   std::array<std::uint64_t, 4> exp_growing{}, exp_shrinking{};
   std::uint64_t exp_splits = 0;
+  std::array<std::uint64_t, 4> prev_growing{}, prev_shrinking{};
+  bool op_created_or_grew = false, op_shrank_or_dissolved = false;  // model: structural event in the current operation
   std::unordered_set<std::uint64_t> seen_keysets;
   std::uint64_t keyset_hash = 0;
   int cur_op = -1;
@@ -206,28 +208,34 @@ struct runner {
           return false;
       }
     }
+    // Counters, as the statement words it: they never decrease, and they move
+    // only when an inner node is created / replaced by one of another size
+    // class / dissolved (the model says whether this operation did that).
+    // Exact agreement with the model's running sums is stronger than the
+    // statement; a disagreement there is only counted as a diagnostic.
     const auto gr = db->get_growing_inode_counts();
     const auto shc = db->get_shrinking_inode_counts();
+    bool moved_g = false, moved_s = false;
     for (std::size_t i = 0; i < 4; ++i) {
-      if (gr[i] != exp_growing[i]) {
-        if (fail("C10", std::string(when) + ": growing counter[" + std::to_string(i) +
-                            "] = " + std::to_string(gr[i]) + ", expected " +
-                            std::to_string(exp_growing[i])))
-          return false;
+      if (gr[i] < prev_growing[i] || shc[i] < prev_shrinking[i]) {
+        if (fail("C10", std::string(when) + ": a growth / shrink counter decreased")) return false;
       }
-      if (shc[i] != exp_shrinking[i]) {
-        if (fail("C10", std::string(when) + ": shrinking counter[" + std::to_string(i) +
-                            "] = " + std::to_string(shc[i]) + ", expected " +
-                            std::to_string(exp_shrinking[i])))
-          return false;
-      }
+      if (gr[i] != prev_growing[i]) moved_g = true;
+      if (shc[i] != prev_shrinking[i]) moved_s = true;
+      if ((gr[i] != exp_growing[i] || shc[i] != exp_shrinking[i]) && st && opts.collect)
+        st->inc("diagnostic_counter_differs_from_exact_model");
     }
-    if (db->get_key_prefix_splits() != exp_splits) {
-      if (fail("C10", std::string(when) + ": key_prefix_splits = " +
-                          std::to_string(db->get_key_prefix_splits()) + ", expected " +
-                          std::to_string(exp_splits)))
+    if (moved_g && !op_created_or_grew) {
+      if (fail("C10", std::string(when) + ": a growth counter moved although this operation neither created an inner node nor replaced one by a larger one"))
         return false;
     }
+    if (moved_s && !op_shrank_or_dissolved) {
+      if (fail("C10", std::string(when) + ": a shrink counter moved although this operation neither replaced an inner node by a smaller one nor dissolved one"))
+        return false;
+    }
+    if (db->get_key_prefix_splits() != exp_splits && st && opts.collect) st->inc("diagnostic_prefix_splits_differs_from_exact_model");
+    prev_growing = gr;
+    prev_shrinking = shc;
     const auto mem = db->get_current_memory_use();
     const auto live = alloc_tracker::get().live_bytes;
     if (mem != live) {
@@ -651,6 +659,8 @@ struct runner {
     for (std::size_t i = 0; i < c.ops.size() && vd.ok; ++i) {
       cur_op = static_cast<int>(i);
       const op& o = c.ops[i];
+      op_created_or_grew = false;
+      op_shrank_or_dissolved = false;
       if ((o.kind == INS || o.kind == REM || o.kind == GET || o.kind == INS_LONGVAL || o.kind == INS_LONGKEY) &&
           bound_violates_precondition(o.key)) {
         if (st && opts.collect) st->inc("op_skipped_precondition");
@@ -688,6 +698,7 @@ struct runner {
             keyset_hash ^= hash_str(o.key);
             for (std::size_t j = 0; j < 4; ++j) {
               exp_growing[j] += static_cast<std::uint64_t>(d.growing[j]);
+              if (d.growing[j]) op_created_or_grew = true;
             }
             exp_splits += static_cast<std::uint64_t>(d.prefix_splits);
             if (d.transition != "add_to_nonfull" && d.transition != "root_leaf_created")
@@ -727,8 +738,10 @@ struct runner {
           if (present) {
             model.erase(o.key);
             keyset_hash ^= hash_str(o.key);
-            for (std::size_t j = 0; j < 4; ++j)
+            for (std::size_t j = 0; j < 4; ++j) {
               exp_shrinking[j] += static_cast<std::uint64_t>(d.shrinking[j]);
+              if (d.shrinking[j]) op_shrank_or_dissolved = true;
+            }
             if (d.transition != "remove_from_nonmin" && d.transition != "root_leaf_removed")
               vd.nontrivial_c01 = true;
             if (opts.collect && st) st->inc(std::string("transition.") + d.transition);
@@ -796,6 +809,7 @@ struct runner {
         }
         case CLEAR: {
           held.clear();
+          if (model.size() >= 2) op_shrank_or_dissolved = true;  // inner nodes are dissolved
           {
             call_scope cs;
             db->clear();
